@@ -31,20 +31,23 @@ type NodeSpec struct {
 // Host returns the server name of the node as the cluster sees it.
 func (n NodeSpec) Host() string { return fmt.Sprintf("127.0.0.1:%d", n.Port) }
 
-// FreePorts reserves n distinct loopback ports.
+var portCounter int
+
+// FreePorts returns n loopback ports from a range private to this process
+// (several worker processes allocate ports at the same time; asking the kernel
+// for "any free port" and releasing it again races between them).
 func FreePorts(n int) []int {
+	base := 12000 + (os.Getpid()%500)*100
 	var ports []int
-	var ls []net.Listener
-	for i := 0; i < n; i++ {
-		l, err := net.Listen("tcp", "127.0.0.1:0")
+	for len(ports) < n {
+		p := base + portCounter%100
+		portCounter++
+		l, err := net.Listen("tcp", fmt.Sprintf("127.0.0.1:%d", p))
 		if err != nil {
-			panic(err)
+			continue
 		}
-		ls = append(ls, l)
-		ports = append(ports, l.Addr().(*net.TCPAddr).Port)
-	}
-	for _, l := range ls {
 		l.Close()
+		ports = append(ports, p)
 	}
 	return ports
 }
